@@ -214,8 +214,13 @@ class Ctx:
         self.scratch = os.path.join(SCRATCH, "%s-%d" % (pid, os.getpid()))
         os.makedirs(self.scratch, exist_ok=True)
         os.makedirs(os.path.join(ROOT, "evidence"), exist_ok=True)
-        kf = os.path.join(ROOT, "known_findings.json")
-        self.known_findings = json.load(open(kf)) if os.path.exists(kf) else []
+        # known findings: committed files known_findings/<id>.json, never written at run time
+        self.known_findings = []
+        kdir = os.path.join(ROOT, "known_findings")
+        if os.path.isdir(kdir):
+            for f in sorted(os.listdir(kdir)):
+                if f.endswith(".json"):
+                    self.known_findings += json.load(open(os.path.join(kdir, f)))
 
     thorough = property(lambda self: self.tier == "thorough")
 
@@ -316,6 +321,30 @@ class Ctx:
             timeout, COQ, COQ, COQ, COQ, COQ, f)
         return sh("ulimit -s unlimited 2>/dev/null; " + cmd, cwd=self.scratch, timeout=timeout + 30)
 
+    def coq_eval_exprs(self, imports, exprs, chunk=250, timeout=900):
+        """Evaluate Coq expressions with vm_compute inside the built development.
+        imports: text placed at the top of each scratch file (Require/Import/Open Scope).
+        exprs: list of Coq terms (strings).  Returns a list of whitespace-normalised value
+        strings (scope suffixes %Z/%nat/%N removed), or raises RuntimeError with coqc's output."""
+        from concurrent.futures import ThreadPoolExecutor
+        chunks = [exprs[i:i + chunk] for i in range(0, len(exprs), chunk)]
+        head = imports + "\nSet Printing Width 100000000. Set Printing Depth 100000000.\n"
+
+        def one(ic):
+            i, ch = ic
+            body = "\n".join("Eval vm_compute in (%s)." % e for e in ch)
+            rc, out = self.coq_eval("cases_%d" % i, body, head, timeout=timeout)
+            if rc:
+                raise RuntimeError("coqc failed on cases_%d: %s" % (i, out[-2000:]))
+            vals = re.findall(r"^\s+= (.*?)\n\s+: ", out, re.S | re.M)
+            if len(vals) != len(ch):
+                raise RuntimeError("expected %d results, parsed %d: %s" % (len(ch), len(vals), out[-1000:]))
+            return [re.sub(r"%(Z|nat|N|positive|string|Q)\b", "", re.sub(r"\s+", " ", v)).strip() for v in vals]
+        with ThreadPoolExecutor(max_workers=min(8, max(1, len(chunks)))) as ex:
+            res = list(ex.map(one, enumerate(chunks)))
+        self.checker_cmds.append("coqc <scratch>/cases_*.v  (Eval vm_compute of %d model runs)" % len(exprs))
+        return [v for r in res for v in r]
+
     # -------------------------------------------------------- coverage counters
     def case(self, key=None, nontrivial=True, sample=None):
         self.evals += 1
@@ -391,3 +420,29 @@ class Ctx:
 
 def hexf(x):
     return float(x).hex()
+
+
+def coq_lit(x):
+    """Python value -> Coq literal in the canonical syntax printed by vm_compute
+    (ints as Z, bool, None/('Some', v), tuples as pairs, lists, str)."""
+    if x is None:
+        return "None"
+    if isinstance(x, bool):
+        return "true" if x else "false"
+    if isinstance(x, int):
+        return str(x) if x >= 0 else "(%d)" % x
+    if isinstance(x, str):
+        return '"' + x.replace('"', '""') + '"'
+    if isinstance(x, tuple) and len(x) == 2 and x[0] == "Some":
+        return "(Some %s)" % coq_lit(x[1])
+    if isinstance(x, tuple):
+        return "(" + ", ".join(coq_lit(e) for e in x) + ")"
+    if isinstance(x, list):
+        return "[" + "; ".join(coq_lit(e) for e in x) + "]"
+    raise TypeError("no Coq literal for %r" % (x,))
+
+
+def norm_coq(s):
+    """Canonical form for textual comparison of two Coq values OF THE SAME TYPE:
+    all parentheses and whitespace removed (tuple nesting is fixed by the type)."""
+    return re.sub(r"[()\s]+", "", s)
